@@ -178,7 +178,7 @@ def run(ctx):
         violations.append({"signature": {"cause": "confusable-prefixes"},
                            "what": f"kinds in the source can render equal names: {witness}",
                            "payload": {"pair": witness, "table": table}})
-    bad, dup, nseq = ng_corr(rng, set(table), 400 if quick else 20000)
+    bad, dup, nseq = ng_corr(rng, set(table), 400 * common.boost() if quick else 20000)
     if dup:
         violations.append({"signature": {"cause": "duplicate-name-from-generator"},
                            "what": "real NameGenerator handed out the same name twice", "payload": dup[0]})
@@ -186,14 +186,14 @@ def run(ctx):
         path = common.write_replay("C18", {"property": "C18", "kind": "correspondence-broken",
                                            "correspondence": "Scfg.Model.NameGen vs NameGenerator", **bad[0]})
         broken.append({"signature": {"kind": "correspondence"}, "replay": path, "nfi": True, "what": "NameGenerator model mismatch"})
-    nclob, cfails = clobber_runs(rng, 600 if quick else 20000)
+    nclob, cfails = clobber_runs(rng, 600 * common.boost() if quick else 20000)
     if cfails:
         f = min(cfails, key=lambda x: len(x["succ"]))
         violations.append({"signature": {"cause": "input-name-in-generator-namespace"},
                            "what": f"restructuring a graph whose block names lie in the generator's namespace clobbers / loses a block ({len(cfails)} of {nclob} runs)",
                            "payload": {"input_succ": [list(s) for s in f["succ"]], "names": f["names"], "stage": f["stage"],
                                        "observed": f["what"], "count": len(cfails)}})
-    nrel, rfails, io_aborts = reload_runs(rng, 800 if quick else 20000)
+    nrel, rfails, io_aborts = reload_runs(rng, 800 * common.boost() if quick else 20000)
     if rfails:
         f = min(rfails, key=lambda x: len(x["succ"]))
         violations.append({"signature": {"cause": "reload-resets-counters"},
